@@ -162,7 +162,8 @@ pub fn judge_exec(l: &Layout, ex: &ExecOut) -> Result<(bool, u32), (String, Stri
 }
 
 fn op_kinds(layout_kind: u8) -> Vec<PKind> {
-    let mut v = vec![PKind::Set, PKind::Put, PKind::Get, PKind::Get, PKind::Touch];
+    // (RawPut = the public raw layer's insert_or_touch, without the front-end's single retry)
+    let mut v = vec![PKind::Set, PKind::Put, PKind::Get, PKind::Get, PKind::Touch, PKind::RawPut];
     if layout_kind >= 2 {
         v.push(PKind::Ensure);
         v.push(PKind::Ensure);
